@@ -164,12 +164,19 @@ def replay_history(ctx, lc, defaults, hist, probes=None, after_step=None):
 
 
 def random_palette(rng):
-    kind = rng.choice(["valid", "valid", "extra", "missing", "badcolour", "case", "nonstring"])
+    kind = rng.choice(["valid", "valid", "extra", "missing", "missing+extra", "badcolour", "case", "nonstring"])
     d = {a: rng.choice(objmodel.COLOURS) for a in common.AA}
     if kind == "extra":
         d["X"] = "pink"
     elif kind == "missing":
         del d[rng.choice(common.AA)]
+    elif kind == "missing+extra":
+        gone = rng.choice(common.AA)
+        del d[gone]
+        d[gone.lower()] = "red"
+        if rng.random() < 0.5:
+            d["X"] = "blue"
+            d["B"] = "green"
     elif kind == "badcolour":
         d[rng.choice(common.AA)] = rng.choice(["pink", "", "rgb(1,2,3)", "#ff0000", "lack", "ray", "e", "red silver", " red", "red ", "gree"])
     elif kind == "case":
